@@ -37,23 +37,6 @@ theorem offset_digits (m : Int) (h : m.natAbs < 24 * 60) :
     m.natAbs / 60 < 24 ∧ m.natAbs % 60 < 60 := by
   refine ⟨rfl, by omega, by omega⟩
 
-/-! ### finding F5: the unrepaired offset formatter (kept only until the repair lands) -/
-
-/-- `+08:00` is written `+8:00`, which cftime does not read as an offset at all. -/
-theorem offset_roundtrip_fails_at_480 : parseOffset (formatOffsetCurrent 480) ≠ some 480 := by decide
-
-/-- `-03:30` is written `-4:30` (floor division): wrong and unreadable. -/
-theorem offset_roundtrip_fails_at_neg210 : parseOffset (formatOffsetCurrent (-210)) ≠ some (-210) := by decide
-
-theorem offsetCurrent_at_480 : formatOffsetCurrent 480 = ['+', '8', ':', '0', '0'] := by decide
-theorem offsetCurrent_at_neg210 : formatOffsetCurrent (-210) = ['-', '4', ':', '3', '0'] := by decide
-theorem offsetCurrent_at_0 : formatOffsetCurrent 0 = ['+', '0', ':', '0', '0'] := by decide
-
-/-- Where the hour has two digits and the division is exact the two formatters agree — which is all
-the existing tests exercise (`+10:00`, `+11:00`). -/
-theorem offsetCurrent_agrees_600_660 :
-    formatOffsetCurrent 600 = formatOffset 600 ∧ formatOffsetCurrent 660 = formatOffset 660 := by decide
-
 /-! ## the form of the output -/
 
 /-- `<unit> since YYYY-MM-DD HH:MM:SS ±HH:MM`: fixed-width zero-padded fields, explicit sign,
@@ -500,13 +483,6 @@ example : formatTimeUnits gregorian pg "days since 0990-01-01 00:00:00 +10:00".t
 /-- the local date and the UTC date differ (UTC is 1999-12-31 14:00) -/
 example : refInstant gregorian pg "days since 2000-01-01 00:00:00 +10:00".toList
     = some (946648800, false) := by decide
-/-- finding F5 on whole strings: the unrepaired function raises / writes an unpadded year -/
-example : formatTimeUnitsCurrent gregorian pg "days since 1990-01-01 00:00:00 +08:00".toList = none := by decide
-example : formatTimeUnitsCurrent gregorian pg "days since 1990-01-01 00:00:00 -03:30".toList = none := by decide
-example : formatTimeUnitsCurrent gregorian pg "days since 0990-01-01 00:00:00 +10:00".toList
-    = some "days since 990-01-01 00:00:00 +10:00".toList := by decide
-example : formatTimeUnitsCurrent gregorian pg "days since 1990-01-01".toList
-    = some "days since 1990-01-01 00:00:00 +0:00".toList := by decide
 /-- members of the spelling family -/
 example : spellUnits "days".toList ⟨1990, 1, 1, 0, 0, 0⟩ 600 ⟨'T', true, .colon, false⟩
     = "days since 1990-01-01T00:00:00+10:00".toList := by decide
@@ -518,10 +494,13 @@ example : gValid ⟨2000, 2, 29, 23, 59, 59⟩ = true := by decide
 example : timeCoordinate .generic [⟨"a", none, true⟩, ⟨"time", some "days since 1990-01-01".toList, true⟩]
     = some "time" := by decide
 example : timeCoordinate .shocStandard [⟨"time", some "days since 1990-01-01".toList, true⟩] = none := by decide
-/-- observation: a SHOC simple dataset with a `time` dimension but no `time` variable -/
+/-- a SHOC simple dataset with a `time` dimension but no `time` variable has no time coordinate
+(finding fixed in the repository: the save used to raise there) -/
 example : timeCoordinate .shocSimple [⟨"temp", none, false⟩] = none
-    ∧ timeCoordinateCurrent .shocSimple ["time", "j", "i"] [⟨"temp", none, false⟩] = some "time"
-    ∧ saveTimeVariable (timeCoordinateCurrent .shocSimple ["time", "j", "i"] [⟨"temp", none, false⟩]) [⟨"temp", none, false⟩]
-        = some none := by decide
+    ∧ saveTimeVariable (timeCoordinate .shocSimple [⟨"temp", none, false⟩]) [⟨"temp", none, false⟩] = none := by decide
+/-- the offsets the unrepaired formatter got wrong (finding F5, fixed in the repository) -/
+example : formatOffset 480 = "+08:00".toList ∧ formatOffset (-210) = "-03:30".toList ∧ formatOffset 0 = "+00:00".toList := by decide
+example : parseOffset "+8:00".toList = none ∧ parseOffset "-4:30".toList = none := by decide
+
 
 end Ems.C17
